@@ -150,7 +150,7 @@ def _run(cmd, cwd=None, timeout=1800, env=None):
 
 def coq_sources() -> list[str]:
     out = []
-    for d in ("model", "proofs", "corr", "props"):
+    for d in ("model", "gen", "proofs", "corr", "props"):
         out += sorted(str(p.relative_to(COQ)) for p in (COQ / d).glob("*.v"))
     return out
 
